@@ -383,7 +383,44 @@ func (m *Model) selfEdgeExcused(e orderEdge) (bool, string) {
 		if fld == nil || m.A.EventType == nil {
 			return false, "cannot identify the value passed to " + m.declName(lf)
 		}
-		for f := range m.reachHybrid(e.Via, false) {
+		extent := m.reachHybrid(e.Via, false)
+		// zero on this path: the constant 0, or a parameter of an event constructor for which every
+		// call in the extent passes such a value
+		var zeroHere func(v ssa.Value, d int) bool
+		zeroHere = func(v ssa.Value, d int) bool {
+			v = stripConv(v)
+			if c, ok := v.(*ssa.Const); ok {
+				return c.Value == nil || c.Uint64() == 0
+			}
+			p, ok := v.(*ssa.Parameter)
+			if !ok || d > 2 {
+				return false
+			}
+			g := p.Parent()
+			pi := -1
+			for i, q := range g.Params {
+				if q == p {
+					pi = i
+				}
+			}
+			n := 0
+			for f := range extent {
+				okAll := true
+				m.eachCall(f, func(c ssa.CallInstruction) {
+					if c.Common().StaticCallee() == g && pi < len(c.Common().Args) {
+						n++
+						if !zeroHere(c.Common().Args[pi], d+1) {
+							okAll = false
+						}
+					}
+				})
+				if !okAll {
+					return false
+				}
+			}
+			return n > 0
+		}
+		for f := range extent {
 			for _, b := range f.Blocks {
 				for _, in := range b.Instrs {
 					st, ok := in.(*ssa.Store)
@@ -394,7 +431,7 @@ func (m *Model) selfEdgeExcused(e orderEdge) (bool, string) {
 					if !ok || fieldOf(fa) != fld || !ownerIs(fa, m.A.EventType) {
 						continue
 					}
-					if c, ok := st.Val.(*ssa.Const); ok && (c.Value == nil || c.Uint64() == 0) {
+					if zeroHere(st.Val, 0) {
 						continue
 					}
 					return false, fmt.Sprintf("%s stores a possibly non-zero %s into an event on this path (%s)", m.declName(f), fld.Name(), m.instrPos(st))
